@@ -336,17 +336,23 @@ def marginal_check(ctx, sub, quick):
     import EoN
     import networkx as nx
     G = nx.star_graph(3)   # centre 0 with 3 leaves: same-source pairs exist
-    cfgs = [(1.0, 1.0), (2.0, 0.5), (0.3, 1.0)] + ([] if quick else [(1.0, 3.0), (5.0, 1.0)])
+    cfgs = [(1.0, 1.0), (2.0, 0.5), (0.3, 1.0), (0.0, 1.0), (1.5, 0.0)] + ([] if quick else [(1.0, 3.0), (5.0, 1.0)])     # incl. the corners: nothing / everything kept
     for ci, (tau, gamma) in enumerate(cfgs):
         p_edge = tau / (tau + gamma)
         p_pair = 1 - 2 * gamma / (tau + gamma) + gamma / (2 * tau + gamma)
         for stage, M in ((1, 4000 if quick else 40000), (2, 16000 if quick else 160000)):
             random.seed(ctx.seed * 1009 + ci * 17 + stage)
             k_edge = k_pair = 0
-            for _ in range(M):
-                H = EoN.directed_percolate_network(G, tau, gamma)
-                k_edge += H.has_edge(0, 1) + H.has_edge(1, 0)
-                k_pair += H.has_edge(0, 1) and H.has_edge(0, 2)
+            try:
+                for _ in range(M):
+                    H = EoN.directed_percolate_network(G, tau, gamma)
+                    k_edge += H.has_edge(0, 1) + H.has_edge(1, 0)
+                    k_pair += H.has_edge(0, 1) and H.has_edge(0, 2)
+            except Exception as e:
+                f = Failure('directed_percolate_network:exception:%s' % exc_signature(e), 'tau=%r gamma=%r raised %r' % (tau, gamma, e))
+                if ctx.split([f]):
+                    ctx.violation(sub, {'tau': tau, 'gamma': gamma, 'M': M}, f)
+                break
             ctx.count_only(sub, M, ['marg-%d' % ci] if stage == 1 else [])
             pe = _binom_p(int(k_edge), 2 * M, p_edge)
             pp = _binom_p(int(k_pair), M, p_pair)
